@@ -21,6 +21,8 @@ sys.path.insert(0, HERE)
 import extract  # noqa: E402
 import kanirun  # noqa: E402
 
+import threading
+ASSEMBLE_LOCK = threading.Lock()
 REPO = os.environ.get("VERIF_REPO", "/repo")
 VERUS = shutil.which("verus") or "/usr/local/bin/verus"
 
@@ -150,6 +152,30 @@ def contracted_fns(src):
     return res
 
 
+def exit_classes(u):
+    """colour the contracted functions of a unit so that no two functions in one class mention each
+    other: `ensures false` is then injected class by class (a callee's falsified contract must not
+    be what makes its caller's guard pass)."""
+    tpl = os.path.join(VERIF, "units", u["unit"] + ".vrs")
+    try:
+        with ASSEMBLE_LOCK:
+            _, info = extract.assemble(tpl, REPO)
+    except Exception:
+        return []
+    fns = [i for i in info["items"] if i["kind"] == "fn" and i.get("clauses") and (i["clauses"].get("requires") or i["clauses"].get("ensures"))]
+    names = [i["path"].split("fn ")[-1].strip() for i in fns]
+    classes = []
+    for i, f in enumerate(fns):
+        placed = False
+        for cls in classes:
+            if all(names[j] not in f.get("idents", []) and names[i] not in fns[j].get("idents", []) and names[j] != names[i] for j in cls):
+                cls.append(i); placed = True
+                break
+        if not placed:
+            classes.append([i])
+    return [[names[i] for i in cls] for cls in classes]
+
+
 def run_verus_unit(prop, u, workdir, variant="main"):
     """assemble + verify one unit variant.  returns a result dict."""
     unit = u["unit"]
@@ -157,14 +183,16 @@ def run_verus_unit(prop, u, workdir, variant="main"):
     t0 = time.time()
     res = {"unit": unit, "variant": variant, "status": None, "errors": [], "backend": "verus/z3"}
     try:
-        text, info = extract.assemble(tpl, REPO, variant=variant)
+        with ASSEMBLE_LOCK:
+            text, info = extract.assemble(tpl, REPO, variant=variant)
     except extract.Lost as e:
         res.update(status="lost-anchor", detail=str(e), wall_s=time.time() - t0)
         return res
     except (extract.TokError, OSError) as e:
         res.update(status="tool-error", detail="extract: %r" % (e,), wall_s=time.time() - t0)
         return res
-    rs = os.path.join(workdir, "%s_%s.rs" % (unit, variant))
+    vtag = re.sub(r"[^A-Za-z0-9]+", "_", variant)[:40] + ("_" + hashlib.sha1(variant.encode()).hexdigest()[:6] if ":" in variant else "")
+    rs = os.path.join(workdir, "%s_%s.rs" % (unit, vtag))
     open(rs, "w", encoding="utf-8").write(text)
     res["assembled"] = rs
     res["info"] = info
@@ -264,13 +292,13 @@ def main(argv):
     try:
         jobs = []
         units = [u for u in cfg.get("verus", []) if not only_unit or u["unit"] == only_unit]
-        variants = ["main", "reach", "exit"]
-        with cf.ThreadPoolExecutor(max_workers=int(os.environ.get("VERIF_JOBS", "6"))) as ex:
+        with cf.ThreadPoolExecutor(max_workers=int(os.environ.get("VERIF_JOBS", "8"))) as ex:
             for u in units:
-                for v in variants:
-                    if v != "main" and u.get("no_guards"):
-                        continue
-                    jobs.append(ex.submit(run_verus_unit, prop, u, workdir, v))
+                jobs.append(ex.submit(run_verus_unit, prop, u, workdir, "main"))
+                if not u.get("no_guards"):
+                    jobs.append(ex.submit(run_verus_unit, prop, u, workdir, "reach"))
+                    for cls in exit_classes(u):
+                        jobs.append(ex.submit(run_verus_unit, prop, u, workdir, "exit:" + ",".join(cls)))
             kfut = None
             if cfg.get("kani") and not only_unit:
                 kfut = ex.submit(kanirun.run_group, prop, cfg["kani"], tier, REPO, VERIF, seed)
@@ -324,11 +352,16 @@ def report(prop, tier, seed, cfg, results, kres, known, t0):
                     path = write_replay(prop, unit, oid, e, r)
                     violations.append((oid, path, "no-failing-input-found", e))
         else:
-            if r["status"] in ("lost-anchor", "tool-error", "timeout"):
+            if r["status"] in ("lost-anchor", "tool-error"):
                 undecided.append("%s[%s guard]: %s %s" % (unit, variant, r["status"], (r.get("detail") or "")[:300]))
+                continue
+            if r["status"] == "timeout":
                 continue
             want = [i["path"].split("fn ")[-1].strip() for i in r["info"]["items"]
                     if i["kind"] == "fn" and i.get("clauses") and (i["clauses"].get("requires") or i["clauses"].get("ensures"))]
+            if variant.startswith("exit:"):
+                want = [w for w in want if w in variant[5:].split(",")]
+                variant = "exit"
             failed_fns = {f["function"].split("::")[-1] for f in r.get("functions", []) if f.get("success") is False}
             # errors carry `where`
             failed_where = {(e["where"] or "").split("fn ")[-1].strip() for e in r.get("errors", [])}
